@@ -392,8 +392,15 @@ def _den(w: World, e, comp, env):
     if isinstance(e, MathFunction):
         x = d(ops[0])
         if isinstance(x, N.Cx):
-            raise Unsupported("math function of a complex value")
-        return w.funcs.apply(e._name, x)
+            if N.is_base(x.im) and N.is_zero_const(x.im):
+                x = x.re
+            else:
+                raise Unsupported("math function of a complex value")
+        v = w.funcs.apply(e._name, x)
+        if w.complex and e._name in ("sqrt", "ln", "acos", "asin"):
+            # not closed over the reals: a real argument may give a complex value (sqrt/ln of negatives, acos/asin beyond [-1,1])
+            return N.Cx(v, w.funcs.apply(e._name + "_im", N.base_value(x)))
+        return v
     if isinstance(e, C.Atan2):
         return w.funcs.apply("atan2", d(ops[0]), d(ops[1]))
     if isinstance(e, BesselFunction):
